@@ -62,6 +62,11 @@ type Contract struct {
 	Raw       []string
 	ReplayArgs    map[string]string
 	ReplayImports []string
+	// replay_field name = Go expression: stand-in for interface/func valued
+	// struct fields of that name when a model is rebuilt as Go values;
+	// replay_assume E restricts the models asked for to those the stand-ins fit
+	ReplayFields map[string]string
+	ReplayAssume []*Clause
 	RecvNonNil bool
 	NoAutoNonNil bool
 }
@@ -94,7 +99,7 @@ func readLines(path string) []string {
 	return strings.Split(string(b), "\n")
 }
 
-var clauseKinds = map[string]bool{"requires": true, "ensures": true, "invariant": true, "panics_when": true, "may_panic_when": true, "modifies": true, "let": true, "fresh": true, "fnfact": true}
+var clauseKinds = map[string]bool{"requires": true, "ensures": true, "invariant": true, "panics_when": true, "may_panic_when": true, "modifies": true, "let": true, "fresh": true, "fnfact": true, "replay_assume": true}
 
 // parseContracts reads one file. pkgPath prefixes relative function names.
 func parseContracts(path, pkgPath string, external bool) ([]*Contract, map[string]*Pred, error) {
@@ -183,6 +188,8 @@ func parseContracts(path, pkgPath string, external bool) ([]*Contract, map[strin
 			cur.PanicsMay = true
 		case "fnfact":
 			cur.FnFacts = append(cur.FnFacts, cl)
+		case "replay_assume":
+			cur.ReplayAssume = append(cur.ReplayAssume, cl)
 		case "modifies":
 			cur.Modifies = append(cur.Modifies, cl)
 		case "let":
@@ -338,6 +345,14 @@ func parseContracts(path, pkgPath string, external bool) ([]*Contract, map[strin
 						cur.ReplayArgs = map[string]string{}
 					}
 					cur.ReplayArgs[strings.TrimSpace(txt[:j])] = strings.TrimSpace(txt[j+1:])
+				}
+			case "replay_field":
+				txt := rest(k + 1)
+				if j := strings.Index(txt, "="); j > 0 {
+					if cur.ReplayFields == nil {
+						cur.ReplayFields = map[string]string{}
+					}
+					cur.ReplayFields[strings.TrimSpace(txt[:j])] = strings.TrimSpace(txt[j+1:])
 				}
 			case "assert_at":
 				// assert_at "source text" expr : expr must hold just before the
